@@ -141,7 +141,10 @@ def mask_grid_data_array(mask: xarray.Dataset, data_array: xarray.DataArray) -> 
             logger.debug(
                 "Masking data array %r with mask %r",
                 data_array.name, mask_name)
-            new_data_array = cast(xarray.DataArray, data_array.where(mask_data_array, other=fill_value))
+            # Only the mask values matter. Coordinates carried by the mask are dropped
+            # so they can not be attached to - or clash with the name of - the data array.
+            condition = mask_data_array.reset_coords(drop=True)
+            new_data_array = cast(xarray.DataArray, data_array.where(condition, other=fill_value))
             new_data_array.attrs = data_array.attrs
             new_data_array.encoding = data_array.encoding
             return new_data_array
